@@ -59,6 +59,110 @@ theorem lookupAll_single {st : State} {id : String} {as : List (ArchKind × Arch
   | none => simp [ha] at h
   | some a => simp [ha] at h; exact ⟨a, rfl, h.symm⟩
 
+/-! ### `judge` on the observations of restore / import -/
+
+theorem judge_target_snd (recs : List Rec) (op : Op) (files : List FName) (d : Dump) :
+    (judge recs op (.target files d)).2 = recs := by
+  cases op with
+  | restore ids =>
+    match ids with
+    | [] => rfl
+    | [id] =>
+      simp only [judge]
+      cases findRec recs id with
+      | none => rfl
+      | some r => cases hm : r.made with
+        | backup since => cases since <;> simp [hm]
+        | «export» a e => simp [hm]
+    | _ :: _ :: _ => rfl
+  | importA ids =>
+    match ids with
+    | [] => rfl
+    | [id] =>
+      simp only [judge]
+      cases findRec recs id with
+      | none => rfl
+      | some r => cases hm : r.made with
+        | backup since => cases since <;> simp [hm]
+        | «export» a e => simp [hm]
+    | _ :: _ :: _ => rfl
+  | write => rfl
+  | delete => rfl
+  | snap => rfl
+  | compact => rfl
+  | age => rfl
+  | backup => rfl
+  | «export» => rfl
+  | dump => rfl
+
+theorem judge_restore_single {recs : List Rec} {id : String} {r : Rec} (h : findRec recs id = some r)
+    (files : List FName) (d : Dump) :
+    (judge recs (.restore [id]) (.target files d)).1 =
+      match r.made with
+      | .backup none =>
+        if sameContent r.d d then [] else [if hasTombstone r.files then .restoreLostTombstone else .restoreDiffers]
+      | _ => [] := by
+  simp only [judge, h]
+  cases hm : r.made with
+  | backup since => cases since <;> simp [hm]
+  | «export» a e => simp [hm]
+
+theorem judge_import_single {recs : List Rec} {id : String} {r : Rec} (h : findRec recs id = some r)
+    (files : List FName) (d : Dump) :
+    (judge recs (.importA [id]) (.target files d)).1 =
+      match r.made with
+      | .backup none =>
+        if sameContent r.d d then [] else [if hasTombstone r.files then .restoreLostTombstone else .restoreDiffers]
+      | .backup (some _) => []
+      | .export a e =>
+        (if exportLower a e r.d d then [] else [.exportMissingPoint]) ++
+        (if exportWithinBlocks a e r.blocks d then [] else [.exportOutsideBlocks]) ++
+        (if exportExact a e r.d d then [] else [.exportExtraPoints]) := by
+  simp only [judge, h]
+  cases hm : r.made with
+  | backup since => cases since <;> simp [hm]
+  | «export» a e => simp [hm]
+
+theorem judge_restore_multi (recs : List Rec) (i1 i2 : String) (rest : List String) (o : Obs) :
+    (judge recs (.restore (i1 :: i2 :: rest)) o).1.all Sig.known = true ∨
+    (judge recs (.restore (i1 :: i2 :: rest)) o).1 = [.badObservation] := by
+  cases o <;> simp [judge]
+
+theorem judge_restore_noArchive (recs : List Rec) (ids : List String) :
+    judge recs (.restore ids) .noArchive = ([], recs) := by
+  match ids with
+  | [] => rfl
+  | [_] => rfl
+  | _ :: _ :: _ => rfl
+
+theorem judge_restore_badOp (recs : List Rec) (ids : List String) :
+    judge recs (.restore ids) .badOp = ([], recs) := by
+  match ids with
+  | [] => rfl
+  | [_] => rfl
+  | _ :: _ :: _ => rfl
+
+theorem judge_import_noArchive (recs : List Rec) (ids : List String) :
+    judge recs (.importA ids) .noArchive = ([], recs) := by
+  match ids with
+  | [] => rfl
+  | [_] => rfl
+  | _ :: _ :: _ => rfl
+
+/-- the content check of a full backup's restore / import passes or blames a tombstone file -/
+theorem content_sig_known {r : Rec} {d : Dump} (h : hasTombstone r.files = false → sameContent r.d d = true) :
+    ∀ sig ∈ (if sameContent r.d d then [] else
+      [if hasTombstone r.files then Sig.restoreLostTombstone else Sig.restoreDiffers]), sig.known = true := by
+  intro sig hsig
+  split at hsig
+  · simp at hsig
+  · next hdiff =>
+    simp only [List.mem_singleton] at hsig
+    subst hsig
+    cases ht : hasTombstone r.files with
+    | true => rfl
+    | false => exact absurd (h ht) hdiff
+
 /-- one step: the checker reports only known kinds, and its records stay linked -/
 theorem judge_step (st : State) (recs : List Rec) (hinv : st.src.Inv) (hl : Linked st.archives recs)
     (op : Op) (hso : (step st op).1.src.seriesOK = true) :
@@ -88,121 +192,110 @@ theorem judge_step (st : State) (recs : List Rec) (hinv : st.src.Inv) (hl : Link
       exact ⟨st.src.flush, Shard.Inv_flush _ hinv, flush_cache _, hso, rfl, rfl, rfl,
         Or.inl ⟨rfl, since, rfl, rfl⟩⟩
   | «export» id a e =>
-    simp only [step] at hso ⊢
-    split
-    · exact ⟨fun _ h => known_of_mem_nil h, hl⟩
-    · next hae =>
-      have hae' : a ≤ e := Int.not_lt.mp hae
-      simp only [Shard.export] at hso ⊢
+    by_cases hae : a > e
+    · have hst : step st (.export id a e) = (st, .badOp) := by simp [step, hae]
+      rw [hst]
+      exact ⟨fun _ h => known_of_mem_nil h, hl⟩
+    · have hae' : a ≤ e := Int.not_lt.mp hae
       cases hx : exportEntries a e st.src.flush.files with
       | error x =>
-        simp only [hx] at hso ⊢
+        have hst : step st (.export id a e) =
+            ({ st with src := st.src.flush }, .exportErr x (listing st.src.flush.files) (blockListing st.src.flush.files)) := by
+          simp [step, hae, Shard.export, hx]
+        rw [hst]
         refine ⟨?_, hl⟩
         intro sig hsig
         simp only [judge, List.mem_singleton] at hsig
         subst hsig
-        split
-        · rfl
-        · next hnt =>
-          have hnt' : hasTombstone (listing st.src.flush.files) = false := by simpa using hnt
+        cases hnt : hasTombstone (listing st.src.flush.files) with
+        | true => rfl
+        | false =>
           cases x with
           | tombstone =>
             exfalso
             have := (hasTombstone_listing _).mpr (exportEntries_tombstone hx)
-            rw [hnt'] at this; simp at this
+            rw [hnt] at this; simp at this
           | noValues =>
-            rw [gapFile_of_noValues _ (Shard.Inv_flush _ hinv) a e hae' hnt' hx]
-            rfl
+            simp [gapFile_of_noValues _ (Shard.Inv_flush _ hinv) a e hae' hnt hx, Sig.known]
       | ok ar =>
-        simp only [hx, State.put] at hso ⊢
+        have hst : step st (.export id a e) =
+            (({ st with src := st.src.flush } : State).put id .export ar,
+             .snapshot (archiveNames ar) (listing st.src.flush.files) (blockListing st.src.flush.files) st.src.flush.dump) := by
+          simp [step, hae, Shard.export, hx]
+        rw [hst] at hso ⊢
         refine ⟨fun _ h => known_of_mem_nil h, Linked.cons rfl ?_ hl⟩
         exact ⟨st.src.flush, Shard.Inv_flush _ hinv, flush_cache _, hso, rfl, rfl, rfl,
           Or.inr ⟨rfl, a, e, rfl, hae', hx⟩⟩
   | restore ids =>
-    simp only [step]
     cases hla : lookupAll st ids with
-    | none => exact ⟨fun _ h => known_of_mem_nil h, hl⟩
+    | none =>
+      have hst : step st (.restore ids) = (st, .noArchive) := by simp [step, hla]
+      rw [hst]; simp only [judge_restore_noArchive]; exact ⟨fun _ h => known_of_mem_nil h, hl⟩
     | some as =>
-      simp only []
-      split
-      · exact ⟨fun _ h => known_of_mem_nil h, hl⟩
-      · next hne =>
-        -- a target observation
+      by_cases hex : (as.any fun a => a.1 == .export) = true
+      · have hst : step st (.restore ids) = (st, .badOp) := by simp [step, hla, hex]
+        rw [hst]; simp only [judge_restore_badOp]; exact ⟨fun _ h => known_of_mem_nil h, hl⟩
+      · have hst : step st (.restore ids) =
+            (st, .target (targetNames (as.foldl (fun t a => t.restore a.2) Shard.empty).files)
+                         (as.foldl (fun t a => t.restore a.2) Shard.empty).dump) := by
+          simp [step, hla, hex]
+        rw [hst]
+        refine ⟨?_, by rw [judge_target_snd]; exact hl⟩
         match ids, hla with
-        | [], _ => exact ⟨fun _ h => known_of_mem_nil h, hl⟩
+        | [], _ => exact fun _ h => known_of_mem_nil h
+        | _ :: _ :: _, _ => exact fun _ h => known_of_mem_nil h
         | [id], hla =>
           obtain ⟨a, ha, rfl⟩ := lookupAll_single hla
-          simp only [judge]
           rcases hl.lookup id with ⟨hn, _⟩ | ⟨kind, ar, r, h1, h2, hok⟩
           · simp [State.archive?, hn] at ha
           · have : a = (kind, ar) := by simp [State.archive?, h1] at ha; exact ha.symm
             subst this
-            rw [h2]
+            rw [judge_restore_single h2]
             obtain ⟨s, hsi, hsc, hsso, hfiles, _, hd, hkind⟩ := hok
-            refine ⟨?_, hl⟩
             rcases hkind with ⟨_, since, hmade, har⟩ | ⟨hk, _⟩
             · rw [hmade]
               cases since with
               | some t => exact fun _ h => known_of_mem_nil h
               | none =>
-                simp only []
-                intro sig hsig
-                split at hsig
-                · simp at hsig
-                · next hdiff =>
-                  simp only [List.mem_singleton] at hsig
-                  subst hsig
-                  split
-                  · rfl
-                  · next hnt =>
-                    exfalso
-                    apply hdiff
-                    have hnt' : hasTombstone (listing s.files) = false := by
-                      rw [← hfiles]; simpa using hnt
-                    rw [hd, har]
-                    simpa [Shard.empty] using restore_same s hsi hsc hsso hnt'
-            · -- an Export archive: the step answered bad-op, excluded by `hne`
-              exfalso; apply hne; simp [hk]
-        | _ :: _ :: _, _ => exact ⟨fun _ h => known_of_mem_nil h, hl⟩
+                apply content_sig_known
+                intro hnt
+                rw [hfiles] at hnt
+                rw [hd, har]
+                simpa [Shard.empty] using restore_same s hsi hsc hsso hnt
+            · exfalso; apply hex; simp [hk]
   | importA ids =>
-    simp only [step]
     cases hla : lookupAll st ids with
-    | none => exact ⟨fun _ h => known_of_mem_nil h, hl⟩
+    | none =>
+      have hst : step st (.importA ids) = (st, .noArchive) := by simp [step, hla]
+      rw [hst]; simp only [judge_import_noArchive]; exact ⟨fun _ h => known_of_mem_nil h, hl⟩
     | some as =>
-      simp only []
+      have hst : step st (.importA ids) =
+          (st, .target (targetNames (as.foldl (fun t a => t.importA a.2) Shard.empty).files)
+                       (as.foldl (fun t a => t.importA a.2) Shard.empty).dump) := by
+        simp [step, hla]
+      rw [hst]
+      refine ⟨?_, by rw [judge_target_snd]; exact hl⟩
       match ids, hla with
-      | [], _ => exact ⟨fun _ h => known_of_mem_nil h, hl⟩
+      | [], _ => exact fun _ h => known_of_mem_nil h
+      | _ :: _ :: _, _ => exact fun _ h => known_of_mem_nil h
       | [id], hla =>
         obtain ⟨a, ha, rfl⟩ := lookupAll_single hla
-        simp only [judge]
         rcases hl.lookup id with ⟨hn, _⟩ | ⟨kind, ar, r, h1, h2, hok⟩
         · simp [State.archive?, hn] at ha
         · have : a = (kind, ar) := by simp [State.archive?, h1] at ha; exact ha.symm
           subst this
-          rw [h2]
+          rw [judge_import_single h2]
           obtain ⟨s, hsi, hsc, hsso, hfiles, hblocks, hd, hkind⟩ := hok
-          refine ⟨?_, hl⟩
           rcases hkind with ⟨_, since, hmade, har⟩ | ⟨_, a', e', hmade, hae, hx⟩
           · rw [hmade]
             cases since with
             | some t => exact fun _ h => known_of_mem_nil h
             | none =>
-              simp only []
-              intro sig hsig
-              split at hsig
-              · simp at hsig
-              · next hdiff =>
-                simp only [List.mem_singleton] at hsig
-                subst hsig
-                split
-                · rfl
-                · next hnt =>
-                  exfalso
-                  apply hdiff
-                  have hnt' : hasTombstone (listing s.files) = false := by
-                    rw [← hfiles]; simpa using hnt
-                  rw [hd, har]
-                  simpa [Shard.empty] using import_same s hsi hsc hsso hnt'
+              apply content_sig_known
+              intro hnt
+              rw [hfiles] at hnt
+              rw [hd, har]
+              simpa [Shard.empty] using import_same s hsi hsc hsso hnt
           · rw [hmade]
             simp only []
             intro sig hsig
@@ -217,7 +310,6 @@ theorem judge_step (st : State) (recs : List Rec) (hinv : st.src.Inv) (hl : Link
             split at hsig
             · simp at hsig
             · simp only [List.mem_singleton] at hsig; subst hsig; rfl
-      | _ :: _ :: _, _ => exact ⟨fun _ h => known_of_mem_nil h, hl⟩
 
 /-- **along any run, only known kinds of failure** -/
 theorem failures_known (ops : List Op) (st : State) (recs : List Rec) (hinv : st.src.Inv)
